@@ -1247,6 +1247,7 @@ func init() {
 	imported("C01", "C01.R14", "a panic with any value is classified as a failure of its iteration (shared with C07.R2): otherwise an iteration that panicked is counted as successful", "C07", []string{"C07.R2"}, nil, 1)
 	imported("C02", "C02.R8", "the limit is reached exactly when an allocation was refused: the allocator hands out ids by one atomic increment and refuses exactly above the limit (shared with C03.R1, C03.R2)", "C03", []string{"C03.R1", "C03.R2"}, nil, 2)
 	imported("C09", "C09.R6", "in config-file mode the tick interval of a stage is the stage's own iteration frequency, replaced by the default only when unset (shared with C15.R2)", "C15", []string{"C15.R2"}, keyContains("#IterationFrequency"), 1)
+	imported("C05", "C05.R14", "a staged run ends at the trigger's own total duration: the staged trigger reports the sum of its stage durations (shared with C10.R2)", "C10", []string{"C10.R2"}, keyContains("#Trigger.Duration", "CalculateStagedRate#Duration", "MaxDuration#sum", "staged#trigger-literal"), 2)
 	imported("C03", "C03.R8", "in config-file mode the limit handed to the run is the file's max-iterations (shared with C15.R4)", "C15", []string{"C15.R4"}, keyContains("MaxIterations"), 1)
 	imported("C08", "C08.R8", "in config-file mode the tolerances handed to the run are the file's own (shared with C15.R4)", "C15", []string{"C15.R4"}, keyContains("axFailures", "IgnoreDropped"), 3)
 	imported("C05", "C05.R11", "in config-file mode the duration limit handed to the run is the file's max-duration (shared with C15.R4)", "C15", []string{"C15.R4"}, keyContains("MaxDuration"), 1)
